@@ -117,8 +117,13 @@ def _is_any(p):
     return isinstance(p, ast.Name) and p.id == '_'
 
 
+_META = __import__('re').compile(r'^_[a-z0-9]{1,3}$')
+
+
 def _is_meta(p):
-    return isinstance(p, ast.Name) and p.id.startswith('_') and len(p.id) > 1
+    """Metavariables are `_` plus 1-3 lowercase letters/digits (`_x`, `_t`,
+    `_now`); longer underscore names are ordinary identifiers."""
+    return isinstance(p, ast.Name) and bool(_META.match(p.id))
 
 
 def match(p, n, env: Env) -> bool:
